@@ -1652,7 +1652,10 @@ func parseSort(p *parser, t token, lhs Node) (Node, error) {
 		p.consume(typeComma, true)
 	}
 
-	p.consume(typeParenClose, true)
+	// A sort clause is a complete operand: a forward slash
+	// that follows it is the division operator, not the
+	// start of a regular expression.
+	p.consume(typeParenClose, false)
 
 	return &SortNode{
 		Expr:  lhs,
